@@ -32,6 +32,7 @@ CONSTANTS
     Atomic,     \* TRUE is right: a Register that panics leaves the registry as it was; FALSE: the per-type name table is
                 \* created before the expectations are checked, so Lookup(type) turns true without any constructor
     VariadicOK, \* FALSE is right (a variadic parameter is a slice, not a config struct); TRUE: `func(...Conf) P` registers
+    WithTriples,\* sequences of three operations over the small alphabet (thorough tier; the quick tier stops at two)
     PtrRecv     \* "strict" is right: a VALUE of a type whose methods have pointer receivers does not implement the plugin
                 \* interface; "lax": it is accepted
 
@@ -142,7 +143,7 @@ Triples == {<<o1, o2, o3>> : o1, o2, o3 \in Small}
 \* a well-formed entry, then every constructor / default variant under the SAME and under ANOTHER name and type
 AfterGood == {<<Op("T1", "a", G1, DNone), Op(t, n, c, d)>> : t \in {"T1", "T2"}, n \in {"a", "b"}, c \in Ctors,
                                                            d \in {DNone, D("func", <<>>, FALSE, "struct")}}
-Cases == Singles \cup Pairs \cup Triples \cup AfterGood
+Cases == Singles \cup Pairs \cup AfterGood \cup (IF WithTriples THEN Triples ELSE {})
 
 \* what is asked after every operation
 ProbeTypes == <<"T1", "T2", "T12", "S">>
